@@ -273,15 +273,18 @@ class StateTriggerDecorator(TriggerDecorator, ExpressionDecorator, AutoKwargsDec
                     notify_type, notify_info = await asyncio.wait_for(self.notify_q.get(), effective_timeout)
                 if notify_type != "state":
                     raise RuntimeError(f"Invalid notify_type {notify_type}, {self}")
+                if not ident_any_values_changed(
+                    notify_info[1], self.state_trig_ident_any
+                ) and not ident_values_changed(notify_info[1], self.state_trig_ident):
+                    # e.g. only an attribute changed: no evaluation, timers are unaffected
+                    continue
                 self.last_new_vars = notify_info[0]
                 self.last_func_args = notify_info[1]
 
                 if ident_any_values_changed(self.last_func_args, self.state_trig_ident_any):
                     trig_ok = True
-                elif ident_values_changed(self.last_func_args, self.state_trig_ident):
-                    trig_ok = await self._is_trig_ok()
                 else:
-                    trig_ok = False
+                    trig_ok = await self._is_trig_ok()
                 await self._check_new_state(trig_ok)
             except TimeoutError:
                 await self._check_state_hold()
